@@ -1,0 +1,27 @@
+// Copyright 2026 The Mellium Contributors.
+// Use of this source code is governed by the BSD 2-clause
+// license that can be found in the LICENSE file.
+
+//go:build verif
+
+// This file contains no code. It carries machine-checked contracts (lines
+// starting with "//@") read by the verification tooling.
+
+package marshal
+
+// C05: EncodeXMLElement succeeds only if the value wrote itself (WriterTo) or
+// the supplied start element was used as the outermost tag. No call in the
+// function takes start as an argument, so usedStart is never set: the two
+// obligations this produces are the open finding "EncodeXMLElement ignores
+// start" (the existing TestEncode pins the current behaviour).
+//@ func EncodeXMLElement
+//@   noswallow[C05]
+//@   ghost usedStart bool = false
+//@   ghost wroteSelf bool = false
+//@   callsite (mellium.im/xmlstream.WriterTo).WriteXML#1
+//@     after: wroteSelf = true
+//@   ensures[C05] result == nil ==> usedStart || wroteSelf
+
+// EncodeXML: every error of encoding, copying and flushing is reported.
+//@ func EncodeXML
+//@   noswallow[C05]
